@@ -69,6 +69,14 @@ type SugarDB struct {
 		embedded   internal.ConnectionInfo               // Information for the embedded connection.
 	}
 
+	// commandLock makes every command atomic with respect to the other clients.
+	// A handler is a sequence of keyspace calls (keysExist, getValues, setValues, ...) that each take the
+	// store lock on their own, and collections are updated in place through the value returned by
+	// getValues. A command that writes therefore runs under the exclusive lock, together with its
+	// append-only-log record, and a command that only reads runs under the shared lock.
+	// State copies (snapshots, AOF rewrite) take the shared lock too.
+	commandLock sync.RWMutex
+
 	// Global read-write mutex for entire store.
 	storeLock *sync.RWMutex
 
@@ -229,7 +237,7 @@ func NewSugarDB(options ...func(sugarDB *SugarDB)) (*SugarDB, error) {
 	if sugarDB.isInCluster() {
 		sugarDB.raft = raft.NewRaft(raft.Opts{
 			Config:                sugarDB.config,
-			GetCommand:            sugarDB.getCommand,
+			GetCommand:            sugarDB.lockedCommand,
 			SetValues:             sugarDB.setValues,
 			SetExpiry:             sugarDB.setExpiry,
 			StartSnapshot:         sugarDB.startSnapshot,
